@@ -218,6 +218,8 @@ def tensor_cuts():
         if not lib.in_space(I, fr, x1, self) or not lib.in_space(I, fr, x2, self):
             lib.raise_(I, TE, 'not an element of the space')
         b = builder(self)
+        if getattr(fr.st, 'inner_mode', 'sum') == 'gram':
+            return oplib.inner(I, fr, self, content(x1), content(x2))
         return fr.st.reductions.reduce(fr, 'sum', inner_term(b, content(x1), content(x2)))
 
     def s_norm(I, fr, self, x):
@@ -226,7 +228,10 @@ def tensor_cuts():
         b = builder(self)
         if b.exponent != 2.0:
             raise Unsupported('norm with exponent != 2 in the abstract tensor space')
-        ip_ = fr.st.reductions.reduce(fr, 'sum', inner_term(b, content(x), content(x)))
+        if getattr(fr.st, 'inner_mode', 'sum') == 'gram':
+            ip_ = oplib.inner(I, fr, self, content(x), content(x))
+        else:
+            ip_ = fr.st.reductions.reduce(fr, 'sum', inner_term(b, content(x), content(x)))
         re = ip_.real if isinstance(ip_, C) else ip_
         nz = fr.st.reductions
         # facts about the weighted sum of squares: it is >= 0 and vanishes iff x == 0 (w > 0)
